@@ -66,6 +66,8 @@ def refresh_rule(rep, prog, oks):
         bad = None
         for o in ar.outs:
             cells = tracker.map_cells(ar.ip, o, ar.planes_loc)
+            if not cells and o.status == "run":
+                bad = "a path through action() touches no record at all, so the aircraft's last_time is not refreshed by this frame"
             for kf, stt in cells:
                 lt = field(prog, stt, "last_time")
                 if lt is None or ("time", "now") not in tags_of(lt):
